@@ -278,7 +278,7 @@ func (x *X) applyContract(f *Frame, st *State, spec *FuncSpec, fn *types.Func, r
 		if cl.Name != "" {
 			nm = fmt.Sprintf("pre:%s#%d:%s", short, ord, cl.Name)
 		}
-		c.obligeNamed(nm, "pre", st.pc, t, pos, cl.Text)
+		c.obligeSplit(nm, "pre", st.pc, t, pos, cl.Text) // one obligation per conjunct
 		c.assume(st.pc, t)
 	}
 	oldSt := st.clone()
